@@ -235,16 +235,6 @@ Lemma field_ok k key v s :
   evals (fun f => p_field f (raw_field (k, key, v, s) ++ rest)) (Ok (norm_field (k, key, v, s), rest)).
 Proof.
   intros Hkey Hv Hname rest Hs. pose proof (field_stop_exp _ Hs) as Hse.
-  assert (Hfin : forall x, evals (fun _ : nat =>
-            match rest with
-            | TAssign :: ts1 =>
-              match x with
-              | EName k0 => @Err (field * list token) rest
-              | _ => Err rest
-              end
-            | ts1 => Ok ((FPos, ENil, x, false), ts1)
-            end) (Ok ((FPos, ENil, x, false), rest))).
-  { intros x. destruct rest as [|t r]; [contradiction|]. destruct t; try contradiction; apply evals_const. }
   destruct k as [| |n]; cbn [raw_field norm_field].
   - (* positional *)
     apply evals_S. eapply evals_ext.
@@ -257,7 +247,7 @@ Proof.
     eapply evals_bind; [apply Hv; exact Hse|]. cbn [fst snd]. apply evals_const.
   - (* name = v *)
     norm_app. apply evals_S. eapply evals_ext; [intro f; apply p_field_pos; exact I|].
-    eapply evals_bind; [apply (Hname n (TAssign :: raw v ++ rest)); apply stop_exp_assign|]. cbn [fst snd].
+    eapply evals_bind; [apply (Hname n (TAssign :: raw v ++ rest)); apply stop_exp_assign|]. cbn [fst snd norm raw app field_named].
     eapply evals_bind; [apply Hv; exact Hse|]. cbn [fst snd]. apply evals_const.
 Qed.
 
